@@ -565,6 +565,22 @@ static void runThreaded(const Case& c, Out& o, const Problem& p, const PolarGrid
             extractSB<ExtrapolatedSmootherTake>(o, pre + "Es_take" + TS, ap, N);
             coarseBitwise(o, pre + "Es_take" + TS, ap, L.grid(), seed);
         }
+        // the give strategy with the other three cache combinations (coefficients / geometry recomputed inside the sweep: separate
+        // branches of the same code)
+        for (int cc = 0; cc < 2; cc++)
+            for (int cg = 0; cg < 2; cg++) {
+                if (cc == 1 && cg == 1)
+                    continue;
+                Hierarchy Hu(grid, p, cc, cg, 1);
+                const Level& Lu = Hu[0];
+                ExtrapolatedSmootherGive S(Lu.grid(), Lu.levelCache(), *p.geo, *p.coef, dirbc, threads);
+                auto ap = [&](Vector<double>& x, Vector<double>& f, Vector<double>& t) {
+                    S.extrapolatedSmoothing(x, f, t);
+                };
+                const std::string nm = pre + "Es_give" + std::to_string(cc) + std::to_string(cg) + TS;
+                extractSB<ExtrapolatedSmootherGive>(o, nm, ap, N);
+                coarseBitwise(o, nm, ap, Lu.grid(), seed);
+            }
     }
     // ---------------- C08 / C09: grid transfer on the pair (level 0, level 1)
     if (has(what, "T") && first) {
